@@ -164,7 +164,7 @@ class SrcInfo:
         fs = self._find(self.structs, ty)
         if fs and field in fs:
             return fs.index(field)
-        std = {"Range": ["start", "end"], "RangeInclusive": ["start", "end", "exhausted"]}
+        std = {"Range": ["start", "end"], "RangeInclusive": ["start", "end", "exhausted"], "RangeFrom": ["start"], "RangeTo": ["end"]}
         last = self._norm(ty).split("::")[-1]
         if last in std and field in std[last]:
             return std[last].index(field)
